@@ -46,6 +46,10 @@ HASHSET_ASSUME = [
     "getrandom 0.3 replaced by a fixed-bytes model (hasher seeds only affect iteration order of non-empty hash tables; the harness tables are empty)",
 ]
 
+import os as _os, sys as _sys
+_sys.path.insert(0, _os.path.join(_os.path.dirname(_os.path.dirname(_os.path.abspath(__file__))), "mirsym"))
+import texts as _MT  # claim texts of the mirsym checks (shared with mirsym/driver.py)
+
 PROPS = {
     "C20": {
         "engine": "kani",
@@ -183,20 +187,13 @@ PROPS = {
         "outside": ["systems of 2+ actors (so: 'all other actors behave as before' is only checked as 'nothing else in the state changes'), several pending timers/choices, choice keys that are non-empty strings (symbolic-size allocation on clone)", "that a checker explores each crashed combination (checker loops, see C01)"],
         "assumptions": COMMON_ASSUME + HASHSET_ASSUME + MODELS_ASSUME,
     },
-    "C05": {
+    **{pid: {
         "engine": "mirsym",
-        "explanation": "Job-broker protocol (no lost work, no lost wake-up, termination of join, stop propagation) decided by BMC over MIR-derived segment summaries of src/job_market.rs with z3 choosing schedules, block outcomes and stop reasons; inductive invariant for the quiescence rule. See mirsym/driver.py EXPLAIN.",
-        "bounds": {"threads": "2 (K=10) and 3 (K=8) quick; 2 (K=14) and 3 (K=10) thorough, also with spurious wake-ups", "queues": "<=6 jobs", "market_batches": "<=4"},
-        "outside": ["equality of evaluated state sets/verdicts with the single-threaded run (check_block + DashMap; see C01)", ">3 threads / longer schedules for the bounded obligations", "memory-model effects", "the timeout stop reason (C12)"],
-        "assumptions": ["log/parking_lot models (sync points: lock, wait, notify_one, notify_all, guard drop)", "containers of opaque jobs abstracted to lengths", "client automaton mirrors the worker closures (broker calls re-read from MIR each run)"],
-    },
-    "C12": {
-        "engine": "mirsym",
-        "explanation": "Timeout clause: from the MIR of the timeout thread with a symbolic clock - closes within one sleep period + one critical section after expiry, leaves the market untouched before, never sleeps while holding the market mutex, and every worker's next broker call observes a closed market. See mirsym/driver.py EXPLAIN.",
-        "bounds": {"paths": "all paths of one loop iteration, arbitrary market state and clock value"},
-        "outside": ["HasDiscoveries::matches / finish_when / target_state_count / target_max_depth wiring (checker loops)", "BFS depth completeness", "simulation seeding and its shutdown flag", "wall-clock accuracy of sleeps"],
-        "assumptions": ["log/parking_lot models", "SystemTime::now() returns an arbitrary value (symbolic clock)", "std::thread::sleep is the only blocking call of the thread"],
-    },
+        "explanation": _MT.EXPLAIN[pid],
+        "bounds": _MT.BOUNDS[pid],
+        "outside": _MT.OUTSIDE[pid],
+        "assumptions": _MT.ASSUME,
+    } for pid in _MT.EXPLAIN},
     "C19": {
         "engine": "kani",
         "files": ["c19.rs"],
